@@ -112,6 +112,13 @@ def make_inputs(tier):
         14: ("file", b"file entry point abc abbc zz hello a"),
         15: ("fd", rd("tiny")),
         16: ("file", rd(elf)),
+        # regexps with backward code reaching YR_MAX_STRING_MATCHES in the middle of a run (other fibers alive), and a
+        # regexp that needs about 800 of the RE_MAX_FIBERS fibers of the scanner's pool
+        20: ("fill", (b"a" * 36 + b"XYZW", 28000, b"a" * 22 + b"XYZW")),
+        21: ("buf", b"b" * 300 + b"YYYY"),
+        22: ("buf", b"aaaXYZW bbbbYYYY ccQRST ababXYZV"),
+        23: ("fill", (b"c" * 36 + b"QRST", 28000, b"c" * 22 + b"QRST")),
+        24: ("fill", (b"ab" * 18 + b"XYZV", 28000, b"ab" * 11 + b"XYZV")),
     }
     return inputs
 
@@ -130,7 +137,7 @@ def scan_lines(inp, script, nr_plan, start=True, flags=24):
     if kind in ("file", "fd"):
         return sl + ["resetidx", "scan%s %d %s" % (kind, norm_flags(int(flags)), hx(d))]
     if kind == "fill":
-        return sl + ["strings 0", "scanfill %s %d" % (hx(d[0]), d[1]), "strings 1"]   # (a million matches are not printed)
+        return sl + ["strings 0", "scanfill %s %d%s" % (hx(d[0]), d[1], " " + hx(d[2]) if len(d) > 2 else ""), "strings 1"]   # (a million matches are not printed)
     fsz, blocks = d
     pat = ""
     for k, b in enumerate(nr_plan):
@@ -144,7 +151,9 @@ def nblocks(inp):
 
 def fsize(inp):
     """what the scan's iterator reports as file size; None: the iterator has no file_size function"""
-    return len(inp[1]) if inp[0] in ("buf", "file", "fd") else inp[1][1] * len(inp[1][0]) if inp[0] == "fill" else inp[1][0]
+    if inp[0] == "fill":
+        return inp[1][1] * len(inp[1][0]) + (len(inp[1][2]) if len(inp[1]) > 2 else 0)
+    return len(inp[1]) if inp[0] in ("buf", "file", "fd") else inp[1][0]
 
 
 def val_h(ty, v):
@@ -172,12 +181,22 @@ def many_rules(nrules, per, hot):
     return "\n".join(out) + "\n"
 
 
+RE_RULES = r'''
+rule noisy { strings: $n = /(a{1,6}){1,6}XYZW/ condition: $n }
+rule lazy { strings: $l = /(c{1,6}?){1,6}?QRST/ condition: $l }
+rule hexalt { strings: $h = { (61 | 62) [0-40] (61 62 | 62) 58 59 5A 56 } condition: $h }
+rule target { strings: $t = /(b{1,10}){1,10}(b{1,10}){1,10}YYYY/ condition: $t }
+'''
+
+
 def rules_text(rs):
     """rs: False = RULES, True = RULES + external named like a module, ("many", nrules, per, hot) = many-strings family"""
     if rs is True:
         return RULES_TIME
     if rs is False:
         return RULES
+    if rs[0] == "re":
+        return RE_RULES
     return many_rules(rs[1], rs[2], rs[3])
 
 
@@ -391,6 +410,14 @@ def run(chk):
         ops = [sc(11), sc(10), sc(11), dict(kind="scan", inp=10, script=[(0, "a")], plan=[], m="scan:10:0=a:-", h=scan_lines(inputs[10], [(0, "a")], [])),
                sc(11), sc(10), sc(5), sc(11), dict(kind="destroy", m="destroy", h=["sdestroy"])]
         hists.append(("many%d_%dx%d_hot%d" % (j, rs[1], rs[2], rs[3]), ops, rs))
+    # the regexp fiber pool lives across scans: every fiber must be back after a scan that was cut short by the
+    # match limit inside a backward regexp execution; after several such scans a fiber-hungry regexp must still match
+    noisy_ids = [20] if tier == "quick" else [20, 23, 24]
+    for j, ni in enumerate(noisy_ids):
+        ops = [sc(22), sc(21)] + [sc(ni) for _ in range(6)] + [sc(21), sc(22)]
+        ops += [dict(kind="scan", inp=ni, script=[(0, "a")], plan=[], m="scan:%d:0=a:-" % ni, h=scan_lines(inputs[ni], [(0, "a")], [])), sc(21), dst]
+        hists.append(("refiberslong%d_in%d" % (j, ni), ops, ("re",)))          # (not repeated under ASan: 8 scans of 1.1 MB)
+        hists.append(("refibers%d_in%d" % (j, ni), [sc(22), sc(ni), sc(21), dst], ("re",)))
     # external variable named like a module: scan twice
     for j in range(2):
         r = chk.rng.fork()
@@ -567,7 +594,11 @@ def run(chk):
     fout, _ = vlib.run_cases(h, fcases, timeout=1500)
     # ... and on a fresh scanner whose entry_point field is poked to the value the reused scanner held
     # (history_independent_partial: that field is the only channel)
-    gout, _ = vlib.run_cases(h, [("g%d" % i, j[7] + ["sdestroy"] + EPILOGUE) for i, j in enumerate(fresh_jobs)], timeout=1500)
+    def first_scan(lines):
+        sl = [l for l in lines if l.startswith("scan msgs=")]
+        return sl[0] if sl else None
+    differing = [i for i, j in enumerate(fresh_jobs) if first_scan(fout.get("f%d" % i, [])) not in (None, j[3])]
+    gout, _ = vlib.run_cases(h, [("g%d" % i, fresh_jobs[i][7] + ["sdestroy"] + EPILOGUE) for i in differing], timeout=1500)
     fresh_same = 0
     for (fid, fl), (hid, oi, _, reused_line, o, replay, ms, _g) in zip(fcases, fresh_jobs):
         gl = [l for l in gout.get("g" + fid[1:], []) if l.startswith("scan msgs=")]
@@ -599,10 +630,10 @@ def run(chk):
 
     # ---- destroy after the prefix: nothing may stay allocated (ASan build)
     ha = hharness("asan")
-    aout, aerr = vlib.run_cases(ha, hcases, timeout=1500)
+    aout, aerr = vlib.run_cases(ha, [c for c in hcases if not c[0].startswith("refiberslong")], timeout=1500)
     leak_ok = 0
     for hid, ops, wt in hists:
-        if hid not in leak_expect:
+        if hid not in leak_expect or hid.startswith("refiberslong"):
             continue
         exp, replay = leak_expect[hid]
         lc = [l for l in aout.get(hid, []) if l.startswith("leakcheck")]
@@ -640,7 +671,9 @@ def run(chk):
                   "string matches, console.log, externals, a private rule; inputs PE (tiny, tiny-idata), ELF, text, empty, 1000100 x 'a' "
                   "(too many matches), two block lists; an aimed family of many-string rule sets (7x10, 2x6, in thorough also 1x70, 9x8, "
                   "1x130 strings) in which the string with a chosen high global index (69, 20, 9, ...) reaches YR_MAX_STRING_MATCHES on "
-                  "1.1 MB of 'q' and a small buffer containing it is scanned before and after; callback abort/error scripts, 1 ns time-outs, not-ready blocks; hazard "
+                  "1.1 MB of 'q' and a small buffer containing it is scanned before and after; a regexp family (greedy / ungreedy repeats and a "
+                  "hex string with alternation, all with backward code) that reaches the match limit mid-run 6 times on one scanner, "
+                  "then a regexp needing 800 of the 1024 pool fibers; callback abort/error scripts, 1 ns time-outs, not-ready blocks; hazard "
                   "histories (abandoned suspension, destroy while suspended, external named like a module). distinct = (input, rc, "
                   "scripted, suspended, stale entry point present) and setting kinds")
     for hid, ops, wt in hists[:3]:
